@@ -37,7 +37,8 @@ RULE = (
     "exist: prime factors, divisors, totient), every pair (n, m) <= 100 / <= 300 through gcd, lcm, binomial; "
     "special part: every base-2 Fermat pseudoprime below 300 000, Chernick Carmichael numbers below 10^12, "
     "2^k and 2^k +- 1, 10^k and 10^k +- 1, squares and cubes of primes, semiprimes of large primes, primes "
-    "next to 10^6 and 10^12; random part: n to 10^12, pairs to 10^12 for gcd/lcm, binomial to n = 2000. "
+    "next to 10^6 and 10^12, every n inside each of the 45 maximal prime gaps below 10^12 (next prime), and the laws "
+    "again on ~300 n after each of 7 programs with large arguments ran in the same process; random part: n to 10^12, pairs to 10^12 for gcd/lcm, binomial to n = 2000. "
     "distinct_nontrivial counts distinct argument tuples other than (0), (1) and pairs containing 0 or 1 "
     "(exhaustive units are disjoint by construction and counted; special and random tuples are hashed)."
 )
@@ -56,7 +57,21 @@ CASE_SECONDS = 60
 # naive references
 
 
+_PRIME_MEMO = {}
+
+
 def is_prime(n):
+    if n > 10 ** 6:
+        # trial division to sqrt(n) costs up to a million steps: remembered (the gap workload asks again)
+        if n not in _PRIME_MEMO:
+            if len(_PRIME_MEMO) > 200000:
+                _PRIME_MEMO.clear()
+            _PRIME_MEMO[n] = _is_prime(n)
+        return _PRIME_MEMO[n]
+    return _is_prime(n)
+
+
+def _is_prime(n):
     if n < 2:
         return False
     if n < 4:
@@ -458,6 +473,8 @@ MIN_COUNTERS["variant:int"] = {"quick": 30000, "thorough": 240000}
 MIN_COUNTERS["variant:sympy"] = {"quick": 30000, "thorough": 240000}
 MIN_COUNTERS["variant:literal"] = {"quick": 5000, "thorough": 20000}
 MIN_COUNTERS["pseudoprimes_base2"] = {"quick": 25, "thorough": 20}
+MIN_COUNTERS["record_gaps_walked"] = {"quick": 40, "thorough": 40}
+MIN_COUNTERS["laws_after_heavy_program"] = {"quick": 1500, "thorough": 1500}
 
 # ---------------------------------------------------------------------------
 # workload
@@ -484,6 +501,10 @@ def units(tier, seed):
         u.append({"kind": "rnd", "seed": seed * 100003 + k, "n": RANDOM_PER_UNIT, "nmax": N})
     for fl in ("M", "m", "Ṁ"):
         u.append({"kind": "flagged", "flag": fl, "hi": 40 if tier == "quick" else 200})
+    for i in range(len(RECORD_GAPS)):
+        u.append({"kind": "gap", "index": i})
+    for i in range(len(HEAVY)):
+        u.append({"kind": "after-heavy", "index": i})
     return u
 
 
@@ -805,6 +826,27 @@ def special_numbers(which):
     raise ValueError(which)
 
 
+# maximal prime gaps below 10^12 (start prime, gap). Every entry is re-proved with the naive reference
+# before it is used; an entry that does not check out is dropped and counted, never trusted.
+RECORD_GAPS = [
+    (113, 14), (523, 18), (887, 20), (1129, 22), (1327, 34), (9551, 36), (15683, 44), (19609, 52), (31397, 72),
+    (155921, 86), (360653, 96), (370261, 112), (492113, 114), (1349533, 118), (1357201, 132), (2010733, 148),
+    (4652353, 154), (17051707, 180), (20831323, 210), (47326693, 220), (122164747, 222), (189695659, 234),
+    (191912783, 248), (387096133, 250), (436273009, 282), (1294268491, 288), (1453168141, 292),
+    (2300942549, 320), (3842610773, 336), (4302407359, 354), (10726904659, 382), (20678048297, 384),
+    (22367084959, 394), (25056082087, 456), (42652618343, 464), (127976334671, 468), (182226896239, 474),
+    (241160624143, 486), (297501075799, 490), (303371455241, 500), (304599508537, 514), (416608695821, 516),
+    (461690510011, 532), (614487453523, 534), (738832927927, 540),
+]
+# programs whose large arguments make the libraries underneath grow process-wide tables; the laws must
+# hold all the same afterwards
+HEAVY = ["70000¡_", "100000¡_", "200000 ∆Ṗ_", "300000æ_", "99991 100003*ǐ_", "1000000 ∆ṫ_", "65537 2*K_"]
+
+
+def gap_checks_out(p, g):
+    return is_prime(p) and is_prime(p + g) and not any(is_prime(k) for k in range(p + 1, p + g))
+
+
 def rnd_n(r):
     x = r.random()
     if x < 0.3:
@@ -862,6 +904,40 @@ def run_unit(unit):
             run_pair(acc, a, b, binom=False)
             res["keys"].append(harness.short_hash([a, b]))
         acc.count(f"special:{unit['which']}", len(nums[:12]))
+        return res
+    if k == "gap":
+        p, g = RECORD_GAPS[unit["index"]]
+        if not gap_checks_out(p, g):
+            acc.skip("gap-table-entry-not-confirmed")
+            return res
+        # every n from just below the gap to its far end: the next prime is the far end for all of them
+        for n in range(p - 2, p + g + 2):
+            run_law(acc, "next-prime", [n], STACK_VARIANTS[:1] if (n - p) % 8 else STACK_VARIANTS)
+            if n in (p, p + g) or (n - p) % 16 == 1:
+                run_law(acc, "is-prime", [n], STACK_VARIANTS[:1])
+            res["keys"].append(harness.short_hash(["gap", n]))
+        acc.count("record_gaps_walked")
+        return res
+    if k == "after-heavy":
+        from lib import env
+
+        heavy = HEAVY[unit["index"]]
+        try:
+            from lib.worker import watchdog
+
+            with watchdog(120):
+                ran = env.run_text(heavy, stack=[])
+            if ran.error is not None:
+                acc.skip("heavy-program-raised")
+        except BaseException as e:  # noqa
+            res["inconclusive"].append({"why": f"heavy program {heavy!r}: {type(e).__name__}", "unit": unit})
+            return res
+        sample = list(range(0, 120)) + list(range(65500, 65600)) + list(range(69990, 70060)) + \
+            [99991, 100003, 131071, 131072, 524287, 999983, 1000003]
+        for n in sample:
+            run_n(acc, n, n < 120, literal=False)
+            res["keys"].append(harness.short_hash(["after", heavy, n]))
+        acc.count("laws_after_heavy_program", len(sample))
         return res
     if k == "flagged":
         for name, _prog, arity, _dom, _rhs in LAWS:
